@@ -252,5 +252,23 @@ def stepOp (b : SBag) : Op → Option SBag × String
     match revcompNamedRef names b.rows with
     | none => (none, "err")
     | some rows => (some { b with rows := rows }, "ok")
+  | .diffFirst =>
+    -- every sequence but the first shows a point wherever it carries the residue the first sequence carries at
+    -- that position; the first sequence, names and order stay
+    if !b.isAlign then (some b, "na") else
+    match b.rows with
+    | [] => (some b, "ok")
+    | r0 :: rest =>
+      (some { b with rows := r0 :: rest.map fun r =>
+        (r.1, r.2.zipIdx.map fun (c, i) => if r0.2[i]? == some c then POINT else c) }, "ok")
+  | .replaceMatch =>
+    -- the inverse display: in every sequence but the first a point is replaced by the residue the first sequence
+    -- carries at that position
+    if !b.isAlign then (some b, "na") else
+    match b.rows with
+    | [] => (some b, "ok")
+    | r0 :: rest =>
+      (some { b with rows := r0 :: rest.map fun r =>
+        (r.1, r.2.zipIdx.map fun (c, i) => if c == POINT then (r0.2[i]?).getD c else c) }, "ok")
 
 end Gv.Spec
